@@ -236,7 +236,13 @@ def fail (kind msg : String) : String := s!"FAIL {kind} {msg}"
 def stepReq (st : St) (ws ows : List String) : St × String :=
   match ws with
   | _ :: idx :: meth :: rest =>
-    match idx.toNat?, parseMethod meth, (kv? rest "tr").bind parseTransport,
+    -- `cred=<euid>:<egid>`: the peer's effective gid is an input of the step; `tr=unix:<name>` names the
+    -- user of the effective uid
+    let trOf : Option Transport := (kv? rest "tr").bind fun s =>
+      match parseTransport s, (kv? rest "cred").map (·.splitOn ":") with
+      | some (.unix u), some [_, g] => some (transportOf ⟨u, g.toNat?.getD 0⟩)
+      | t, _ => t
+    match idx.toNat?, parseMethod meth, trOf,
           (kv? rest "auth").bind (parseAuth st) with
     | some i, some m, some tr, some ad =>
       match routes[i]? with
